@@ -1,17 +1,19 @@
 ---- MODULE SchemaModelMC ----
 \* Checking and export configuration of SchemaModel.tla: Exact (complete and minimal) and DiffSpec(S,S) = {} over the edit
-\* neighbourhood of the seeds; export of (from, to, expected change set) for the bindings.
+\* neighbourhood of ONE seed (the check driver runs one TLC per seed in parallel); export of (from, to, expected change set).
 EXTENDS SchemaModel, Json, SequencesExt
-CONSTANTS Wide,     \* TRUE: compound (two-edit) pairs from every seed; FALSE: from Seed2 only (quick tier)
-          Depth2,   \* TRUE: also all single edits from every state one edit away from a seed (thorough)
+CONSTANTS SeedName, \* "Empty" | "Seed1" | "Seed2" | "Seed3"
+          Depth2,   \* TRUE: also all single edits from every state one edit away from the seed (thorough)
           OutFile
-R1 == Reach(Seeds, 1)
-Pairs1 == UNION { { <<S, R>> : R \in Succ(S) } : S \in Seeds }
+Seed == CASE SeedName = "Empty" -> Empty [] SeedName = "Seed1" -> Seed1 [] SeedName = "Seed2" -> Seed2 [] OTHER -> Seed3
+R1 == Reach({Seed}, 1)
+Pairs1 == { <<Seed, R>> : R \in Succ(Seed) }
 Pairs2 == IF Depth2 THEN UNION { { <<S, R>> : R \in Succ(S) } : S \in R1 } ELSE {}
-\* pairs at distance 2 from the seeds (compound edits)
-Pairs12 == UNION { { <<S, R>> : R \in UNION {Succ(M) : M \in Succ(S)} } : S \in (IF Wide THEN Seeds ELSE {Seed2}) }
+\* pairs at distance 2 from the seed (compound edits)
+Pairs12 == { <<Seed, R>> : R \in UNION {Succ(M) : M \in Succ(Seed)} }
 All == Pairs1 \cup Pairs2 \cup Pairs12
-ASSUME PrintT(<<"STATS", ToJson([seedsWF |-> \A S \in Seeds : WF(S), reach1 |-> Cardinality(R1), pairs1 |-> Cardinality(Pairs1), pairs2 |-> Cardinality(Pairs2), pairs12 |-> Cardinality(Pairs12), all |-> Cardinality(All)])>>)
+ASSUME PrintT(<<"STATS", ToJson([seedWF |-> WF(Seed), reach1 |-> Cardinality(R1), pairs1 |-> Cardinality(Pairs1), pairs2 |-> Cardinality(Pairs2), pairs12 |-> Cardinality(Pairs12), all |-> Cardinality(All)])>>)
+ASSUME WF(Seed)
 ASSUME \A p \in All : Exact(p[1], p[2])
 ASSUME \A S \in R1 : DiffSpec(S, S) = {}
 \* descriptor classes exhibited by the exported pairs (seed adequacy is measured, not assumed)
